@@ -87,6 +87,71 @@ def guards(rep, u):
     return n
 
 
+READERS0 = ("bn_cmp", "bn_is_", "bn_calc_", "bn_export", "bn_digits", "bn_get", "ec_point_is_", "ec_point_check", "ec_curve_")
+
+
+def alias_rule(rep, u):
+    """callers pass the same object for two parameters of ecdsa_* workers (hash == sign_r, rnd == sign_s, priv_key == shared):
+    in the callee, once the object has been written through one parameter name the other name is not used any more"""
+    from rules.core import walk, strip_casts
+    pairs = {}
+    for fn in u.function_list:
+        if fn.relfile() != ECDSA_H or not fn.has_cfg or fn.name.endswith("self_test"):
+            continue
+        for pos, root, c, ps in fn.calls():
+            callee = u.functions.get(c.get("fn"))
+            if callee is None or callee.relfile() != ECDSA_H or not callee.has_cfg:
+                continue
+            ks = [key(strip_casts(a)) for a in c["args"]]
+            for i in range(len(ks)):
+                for j in range(i + 1, len(ks)):
+                    if ks[i] == ks[j] and ks[i].startswith("&") and i < len(callee.params) and j < len(callee.params):
+                        pairs.setdefault((callee.name, i, j), []).append((fn.name, c.get("ln")))
+    n = 0
+    for (cname, i, j), sites in sorted(pairs.items()):
+        callee = u.functions[cname]
+        A, B = callee.params[i]["n"], callee.params[j]["n"]
+        rep.functions.add(cname)
+        uses = {A: [], B: []}
+        writes = {A: [], B: []}
+        for pos, root, c, ps in callee.calls():
+            for ai, a in enumerate(c["args"]):
+                a0 = strip_casts(a)
+                if a0.get("k") == "ref" and a0["n"] in (A, B):
+                    uses[a0["n"]].append((pos, c))
+                    nm = c.get("fn") or ""
+                    if ai == 0 and nm.startswith(("bn_", "ec_")) and not nm.startswith(READERS0):
+                        writes[a0["n"]].append((pos, c))
+        for pos, root, x, ps in callee.nodes():
+            if x.get("k") == "bin" and x["op"].endswith("=") and x["op"] not in ("==", "!=", "<=", ">="):
+                l = strip_casts(x["x"])
+                for y, _ in walk(l):
+                    if y.get("k") == "ref" and y["n"] in (A, B) and l.get("k") != "ref":
+                        writes[y["n"]].append((pos, x))
+        n += 1
+        inst = "alias:%s=%s" % (A, B)
+        desc = "%s is called with %s and %s naming one object (%s): after a write through one name the other name is not used" % (
+            cname, A, B, ", ".join("%s:%s" % s_ for s_ in sites[:3]))
+        bad = None
+        for w_name, o_name in ((A, B), (B, A)):
+            for wpos, wc in writes[w_name]:
+                for upos, uc in uses[o_name]:
+                    if uc is wc:
+                        continue
+                    after = (upos[0] == wpos[0] and upos[1] > wpos[1]) or (upos[0] != wpos[0] and upos[0] in callee.reach_from([wpos[0]]) and upos[0] != wpos[0])
+                    if upos[0] == wpos[0] and upos[1] <= wpos[1]:
+                        after = upos[0] in callee.reach_from(callee.blocks[wpos[0]].rsucc()) if False else False
+                    if after:
+                        bad = bad or "'%s' is used at line %s after the object was written through '%s' at line %s" % (
+                            o_name, uc.get("ln"), w_name, wc.get("ln"))
+        if bad:
+            rep.violated("R-ALIAS", callee, inst, desc, bad)
+        else:
+            rep.proved("R-ALIAS", callee, inst, desc, "%d writes through %s, %d through %s; no later use of the other name" % (
+                len(writes[A]), A, len(writes[B]), B))
+    return n
+
+
 def run(rep, tier):
     us = driver.load_units(units(tier))
     rep.use_units(us)
@@ -108,6 +173,7 @@ def run(rep, tier):
             n_sw = n
     rep.floor("R-ERR call sites in ecdsa.h", n_err, 190)
     rep.floor("switch(curve->algo) sites", n_sw, 3)
+    rep.floor("aliased-argument call shapes", alias_rule(rep, us["ecdsa:default"]), 3)
     from props import c09
     c09.byte_api(rep, us, "C03")
     return driver.finish(
